@@ -162,6 +162,11 @@ class BuiltinMixin:
     def bi_getattr(self, args, kw, n, frame):
         obj, name = args[0], args[1]
         nm = z3.simplify(self.as_str(name))
+        if len(args) == 3 and self.in_spec:
+            # total, branch-free version for clauses
+            has = self.bi_hasattr([obj, name], {}, n, frame)
+            got = self.getattr_val(obj, nm, nm.as_string() if z3.is_string_value(nm) else None)
+            return self.ite_tv(has.r, got, args[2])
         if z3.is_string_value(nm):
             if len(args) == 3:
                 has = self.bi_hasattr([obj, name], {}, n, frame)
